@@ -70,6 +70,117 @@ def registry_oracle(ops):
     return "".join(out).rstrip("\n")
 
 
+# ---------------------------------------------------------------------------------------------------------------
+# Operation sequences over a wide key space.  Both registries are maps whatever their layout (chains, open addressing,
+# growth, deletion by unlinking / shifting / marking): after every step every key seen so far is looked up.
+# A line uses at most 64 distinct keys (the harness observes that many).
+# ---------------------------------------------------------------------------------------------------------------
+BIG_IDS = [64, 65, 127, 128, 255, 256, 1023, 1024, 4095, 65535, 65536, 1000000, 16777216, 2 ** 31 - 1, 2 ** 31, 2 ** 31 + 1, 2 ** 32 - 16, 2 ** 32 - 2, 2 ** 32 - 1]
+
+
+def tag_universe():
+    names = ["t%d" % i for i in range(64)] + ["ns/name-%d" % i for i in range(32)] + ["a" * k for k in range(1, 17)] + ["my.app/rec%02d" % i for i in range(16)]
+    names += ["p", "p/q", "p/q.r", "pq", "inst", "inst2", "uuid", "uuid/v4", "x" * 40, "x" * 41, "y" * 63]
+    return names
+
+
+def reg_val(kind, rng):
+    return rng.choice(["1", "2"]) if kind == "G" else rng.choice(["1", "2", "11", "12", "21", "22"])
+
+
+def pair_sweep(kind, keys):
+    """register a, register b, unregister a (b must survive), unregister b: every ordered pair"""
+    out = []
+    for a in keys:
+        for b in keys:
+            if a != b:
+                out.append("%s +%s=%s +%s=%s -%s -%s" % (kind, a, "1" if kind == "G" else "11", b, "2" if kind == "G" else "22", a, b))
+    return out
+
+
+def fill_and_drain(kind, rng, pool):
+    """register the whole pool, unregister it key by key in another order (re-registering some on the way), register it again"""
+    ks = list(pool)
+    rng.shuffle(ks)
+    seq = ["+%s=%s" % (k, reg_val(kind, rng)) for k in ks]
+    order = list(ks)
+    rng.shuffle(order)
+    for i, k in enumerate(order):
+        seq.append("-%s" % k)
+        if i % 5 == 4:
+            seq.append("+%s=%s" % (order[rng.randrange(i + 1)], reg_val(kind, rng)))
+    for k in order[::2]:
+        seq.append("+%s=%s" % (k, reg_val(kind, rng)))
+    for k in order[::3]:
+        seq.append("-%s" % k)
+    return kind + " " + " ".join(seq)
+
+
+def random_walk(kind, rng, pool, length):
+    """phases of mostly-registering and mostly-unregistering over the pool"""
+    seq, live = [], set()
+    grow = True
+    for i in range(length):
+        if i % max(4, len(pool) // 2) == 0:
+            grow = rng.random() < 0.6
+        r = rng.random()
+        if r < (0.7 if grow else 0.25) or not live:
+            k = rng.choice(pool)
+            live.add(k)
+            seq.append("+%s=%s" % (k, reg_val(kind, rng)))
+        elif r < 0.95:
+            k = rng.choice(sorted(live, key=str)) if rng.random() < 0.85 else rng.choice(pool)
+            live.discard(k)
+            seq.append("-%s" % k)
+        else:
+            seq.append("?%s" % rng.choice(pool))
+    return kind + " " + " ".join(seq)
+
+
+def wide_sequences(rng, tier):
+    """-> (small, large, counts): `small` lines never hold more than 8 live keys (a table of 16 slots need not grow), `large`
+    lines hold up to 64"""
+    quick = tier == "quick"
+    small, large, counts = [], [], {}
+    ids = [str(i) for i in range(64)]
+    big = [str(i) for i in BIG_IDS]
+    tagu = tag_universe()
+
+    def add(dst, fam, ls):
+        dst.extend(ls)
+        counts[fam] = counts.get(fam, 0) + len(ls)
+
+    # every ordered pair of type ids 0..63, of the large ids, and of large x small; every ordered pair of 64 tag names
+    add(small, "X/pair-sweep", pair_sweep("X", ids) + pair_sweep("X", big) + [l for b in big for i in ids[::7] for l in pair_sweep("X", [b, i])])
+    add(small, "G/pair-sweep", pair_sweep("G", tagu[:64]) + pair_sweep("G", tagu[64:64 + (24 if quick else 60)]))
+    # triples and short walks that never exceed 8 live keys
+    for kind, uni in (("X", ids + big), ("G", tagu)):
+        ls = []
+        for _ in range(1500 if quick else 20000):
+            ks = rng.sample(uni, rng.choice([3, 3, 4, 5, 6, 8]))
+            seq = ["+%s=%s" % (k, reg_val(kind, rng)) for k in ks]
+            victims = list(ks)
+            rng.shuffle(victims)
+            for v in victims[:rng.randint(1, len(ks))]:
+                seq.append("-%s" % v)
+                if rng.random() < 0.3:
+                    seq.append("+%s=%s" % (rng.choice(ks), reg_val(kind, rng)))
+            ls.append(kind + " " + " ".join(seq))
+        add(small, kind + "/few-keys", ls)
+    # up to 64 live keys: fill and drain, random walks
+    for kind, uni in (("X", ids + big), ("G", tagu)):
+        fd, rw = [], []
+        for n in (9, 12, 16, 17, 20, 24, 31, 32, 33, 34, 40, 48, 63, 64):
+            for rep_ in range(3 if quick else 20):
+                pool = rng.sample(uni, n) if rep_ else (uni[:n] if kind == "X" else uni[:n])
+                fd.append(fill_and_drain(kind, rng, pool))
+                pool = rng.sample(uni, n)
+                rw.append(random_walk(kind, rng, pool, 3 * n + 20))
+        add(large, kind + "/fill-and-drain", fd)
+        add(large, kind + "/random-walk", rw)
+    return small, large, counts
+
+
 def expected_dispatch(tree_line, mode, registry, doc):
     """Re-implement dispatch on the passthrough tree (ranges on).  Returns (result kind, calls)
     where result kind is 'ok'/'err CODE'; the call list is post-order."""
@@ -198,6 +309,15 @@ def run(tier):
         seq = ["+%s=%d" % (t, 1 + i % 2) for i, t in enumerate(idl)] + ["-%s" % idl[i] for i in range(0, n, 5)] + ["+%s=2" % idl[i] for i in range(0, n, 10)]
         lines.append("X " + " ".join(seq))
         exps.append(registry_oracle(seq))
+    # wide key spaces: type ids 0..63 and large ones, 150 tag names; up to 64 live entries.  Lines that keep a table small come
+    # first within every harness process (a table that has grown in an earlier line would hide the small layouts)
+    small, large, wcounts = wide_sequences(rng, tier)
+    nbase = len(lines)
+    lines = small + lines + large
+    exps = [registry_oracle(l[2:].split()) for l in small] + exps + [registry_oracle(l[2:].split()) for l in large]
+    for fam, n in sorted(wcounts.items()):
+        rep.count("registry-wide/" + fam, n)
+    rep.coverage["registry_wide_keys"] = {"type_ids": "0..63 and %s" % BIG_IDS, "tags": len(tag_universe()), "max_live_entries": 64}
     impl, model, diffs, crashes, mcr = K.correspond("core", lines)
     rep.count("registry-sequences", len(lines))
     rep.coverage["colliding_tags"] = [t1, t2]
